@@ -120,6 +120,9 @@ func famRegs3(r *rng) []string {
 		// the name of the function being run (repo fix 0f85325)
 		"func fo(){ for fo = 3 { print(len(sv(catch(fo + 1)))) }; 1 }; println(fo())",
 		"func fp(n){ s = 0; for fp = n { s = s + 1 }; s }; println(fp(3), fp(2))",
+		// quote() and eval() of the variable (repo fix 9150a9b)
+		"for i = 2 { println(quote(i + 1)) }; func fq(n){ quote(n * 2) }; println(fq(3))",
+		"func fe(n){ eval(\"n + 1\") }; println(sv(catch(fe(3)))); for i = 2 { print(sv(catch(eval(\"i * 2\")))) }; println()",
 		// two parameters of one name: the last one wins (repo fix bbcef1a)
 		"func dp(a, a){ a }; println(dp(1, 2), ((x, y, x) => [x, y])(1, 2, 3))",
 		"func dq(a, b, a, b){ a = a + b; [a, b] }; println(dq(1, 2, 3, 4), dq(1, \"s\", 3, 4), dq(1, 2, \"t\", 4))"))
